@@ -73,10 +73,10 @@ def gen_caption(rng, tag):
 def cases(ctx):
     rng = ctx.rng('c11')
     chains = ['dfxp', 'sami', 'dfxp>sami', 'sami>dfxp', 'webvtt']
-    for i in range(ctx.budget(2500, 150000)):
-        if i % 6 == 5 and rng.random() < 0.4:
+    for i in range(ctx.budget(8000, 250000)):
+        if i % 6 == 5 and rng.random() < 0.5:
             from vf.gen import sccprog
-            prog = sccprog.gen_popon(rng)
+            prog = sccprog.gen_popon(rng, italic_bias=rng.choice([0.0, 0.6, 0.9]))
             lines, _ = sccprog.encode_popon(prog)
             yield {'kind': 'reader', 'format': 'scc', 'doc': sccprog.scc_doc(lines), 'reader_kwargs': {},
                    'read_kwargs': {}}
